@@ -31,6 +31,7 @@ def base_vad():
                                                       ["p2", [["bit", "r", 3], ["bit", "b", 2]]], ["al1", [["net", "s1"]]]]},
              {"name": "p0", "module": "prim", "conns": [["x", [["c", 0]]], ["z", [["bit", "b", 2], ["c", 1]]], ["q", []]]},
              {"name": "p1", "module": "prim", "conns": [["x", [["bit", "r", 3]]], ["z", [["range", "b", 1, 0]]]]},
+             {"name": "dd", "module": "leaf", "conns": [["d", [["net", "s1"], ["net", "s1"]]]]},   # one net on two bits of a port
              {"name": "u9", "module": "leaf", "positional": True,
               "conns": [[None, [["net", "s1"]]], [None, [["bit", "v", 0]]], [None, [["range", "r", 4, 3]]]]}],
          "assigns": [[[["bit", "y", 0]], [["bit", "b", 1]]], [[["range", "r", 5, 4]], [["range", "b", 2, 1]]]]},
